@@ -483,6 +483,12 @@ func genCore(prop string, seed uint64, faulty bool) *Scenario {
 				}
 				if j == 0 && n == 1 && g.pct(k.doneOps) {
 					c.Ops = append(c.Ops, Op{K: "done"})
+					if g.pct(30) {
+						// it keeps reporting after its Done
+						for o, m := 0, g.in(1, 2); o < m; o++ {
+							c.Ops = append(c.Ops, g.reporterOp(kr, &c, len(c.Ops)))
+						}
+					}
 				}
 				sc.Clients = append(sc.Clients, c)
 			}
